@@ -70,6 +70,7 @@ func init() {
 		PairedUpdates(c, "default")
 	}
 	extraRules["C07"] = stale("share")
+	extraRules["C04"] = func(c *Ctx) { CheckMustWrite(c, "C04") }
 	extraRules["C10"] = func(c *Ctx) { WriterDiscipline(c, "default", "C10") }
 	extraRules["C11"] = func(c *Ctx) { WriterDiscipline(c, "default", "C11") }
 	extraRules["C12"] = func(c *Ctx) { WriterDiscipline(c, "default", "C12") }
@@ -96,5 +97,12 @@ func init() {
 			}
 		}
 		SizeTables(c, "default")
+	}})
+}
+
+func init() {
+	Register(&Property{ID: "C01", Trusted: commonTrusted, RuleText: "SH-NILBASE", Explanation: "group laws (structure)", Run: func(c *Ctx) {
+		NilBase(c, "default")
+		CheckMustWrite(c, "C01")
 	}})
 }
